@@ -375,6 +375,7 @@ func C11(r *core.Report) {
 		"R2 kind discrimination - each UnmarshalCBOR rejects a kind other than its own constant right after reading it, the seven constants are pairwise distinct and equal the iplddecoders.Kind values, each fast decoder re-checks the kind, and DecodeAny dispatches each of the seven kinds to its own decoder; " +
 		"R3 MarshalCBOR writes each field at the index UnmarshalCBOR reads it from; presence accessors (HasX/GetX) depend only on nil-ness. " +
 		"R4 no cbor.DecOptions literal in the decoder packages lowers MaxArrayElements / MaxMapPairs / MaxNestedLevels below the library defaults (the fast decoders must accept every list length the reference decoder accepts). " +
+		"R6 every link produced by the hand-written decoders carries the CID that the library parser (cid.CidFromBytes / Cast / Decode) read from the link's own bytes; no CID is assembled from parts with a fixed codec or version. " +
 		"Not decided: integer sign/overflow, list edge cases, byte-level equality with the bindnode decoder."
 	c11DecoderLimits(r)
 	c11NoExtraRejection(r)
@@ -492,6 +493,8 @@ func C11(r *core.Report) {
 	}
 	c11FastDecoders(r, kindConst)
 	c11PresenceAccessors(r)
+	c11LinksFromLibraryParser(r)
+	r.Floor("C11.R6", 1)
 	r.Floor("C11.R1", 30)
 	r.Floor("C11.R2", 8)
 	r.Floor("C11.R3", 8)
